@@ -953,7 +953,9 @@ class ExecutionGraph(DAG, PickleInterface):
         # Set up the job list and the map to get back to step names.
         joblist = []
         jobmap = {}
-        for step in self.in_progress:
+        # Query in graph insertion order, not in set iteration order: the
+        # order of the answers decides the order of resubmissions/restarts.
+        for step in [_ for _ in self.values if _ in self.in_progress]:
             jobid = self.values[step].jobid[-1]
             joblist.append(jobid)
             jobmap[jobid] = step
